@@ -63,6 +63,9 @@ def generate(ck):
             "So_frac": [float(v) for v in rng.random(6)],
             "p": [float(v) for v in rng.uniform(200, 9000, 6)],
         }
+        if i % 5 == 3:
+            # one phase's mass is not tracked: its reference density is exactly 0 (no draw consumed)
+            base["dens"][(i // 15) % 3] = 0.0
         if i % 3 != 2:
             fam = ["constant", "linear-invB", "linear-invB-linear-R"][i % 3 if i % 3 != 2 else 0]
             if i % 9 == 0:
@@ -85,6 +88,13 @@ def generate(ck):
             else:
                 t = {"kind": "synthetic", "family": str(rng.choice(["constant", "linear", "kinked"])), "prm": [float(v) for v in rng.random(3)], "n": int(rng.choice([8, 40, 300])), "p_lo": float(rng.uniform(10, 150)), "p_hi": float(rng.uniform(9500, 12000)), "grid": str(rng.choice(["uniform", "nonuniform"])), "seed": int(rng.integers(0, 10**6)), "Sw": base["Sw"]}
             descs.append(dict(base, kind="table", table=t, relperm=[float(rng.choice([1.0, 2.0, 2.5])), 2.0, float(rng.choice([1.0, 3.0])), float(rng.uniform(0, 0.1)), float(base["Sw"] + rng.uniform(0, 0.1)), float(rng.uniform(0, 0.1)), 1.0, float(rng.uniform(0.2, 1)), float(rng.uniform(0.5, 1))]))
+    # one phase untracked while the tracked ones are light: a stand-in density for the untracked phase (1.0,
+    # say) would dominate storage and mobility instead of hiding inside the tolerance
+    ship = next(d for d in descs if d["kind"] == "table" and d["table"].get("kind") == "shipped")
+    for z in range(3):
+        dens = [0.05, 0.002, 0.03]
+        dens[z] = 0.0
+        descs.append(dict(ship, dens=dens, phi=0.11 + 0.01 * z))
     return descs
 
 
@@ -236,6 +246,16 @@ def run_case(ck, desc):
         warnings.simplefilter("ignore")
         obj = fp.FlowPropertiesTwoPhase.from_table(full_tab, df_kr, refd, phi, Sw, float(P[ki]))
     pvt_lib, kr_lib = obj.pvt, obj.kr
+    # the object works with the reference densities it was given (a phase whose mass is not tracked has 0)
+    for nm_, v_ in refd.items():
+        try:
+            held_ = float(pvt_lib[nm_])
+        except Exception:  # noqa: BLE001
+            ck.count("reference_density_not_exposed")
+            continue
+        ck.count("reference_densities_read_back")
+        if held_ != float(v_):
+            ck.violation("works-with-the-reference-densities-given", {"name": nm_, "given": float(v_), "held_by_the_object": held_}, desc)
     own = {k: (lambda x, k=k: np.interp(x, P, cols[k])) for k in ("Bo", "Bg", "Bw", "Rs", "Rv", "mu_o", "mu_g", "mu_w")}
     # evaluation pressures: inside the table, >= 2 psi away from every node
     pe = []
@@ -326,7 +346,8 @@ def run_case(ck, desc):
             lam_n = np.asarray(fp.lambda_combined_func(P, cols["So"], pvt_lib, kr_lib), dtype=float)
             c_n = np.asarray(fp.compressibility_combined_func(P, cols["So"], phi, Sw, pvt_lib), dtype=float)
         ok = np.isfinite(lam_n / c_n)
-        e = float(np.max(np.abs(tab_alpha[ok] - (lam_n / c_n)[ok]) / np.abs((lam_n / c_n)[ok]))) if ok.any() else 0.0
+        # (where nothing is mobile - or the only mobile phase's mass is not tracked - both sides are exactly 0)
+        e = float(np.max(np.abs(tab_alpha[ok] - (lam_n / c_n)[ok]) / np.maximum(np.abs((lam_n / c_n)[ok]), 1e-300))) if ok.any() else 0.0
         if not ck.margin("tabulated alpha = lambda / c at nodes", e, 1e-13):
             ck.violation("tabulated-alpha=lambda/c", {"rel": e}, desc)
         ck.count("table_nodes_checked", int(ok.sum()))
@@ -353,7 +374,10 @@ def run_case(ck, desc):
                 if not ck.margin("end rows: c = derivative of documented storage", e_end, 2e-3):
                     ck.violation("equals-finite-difference-of-documented-storage", {"row": "first" if row == 0 else "last", "c_library": float(c_n[row]), "c_reference": float(c_ref), "rel": e_end}, desc)
                 lam_ref = float(lam_n[row])
-                if not ck.margin("end rows: tabulated alpha = lambda / c_reference", abs(tab_alpha[row] * c_ref / lam_ref - 1), 2e-3):
+                if lam_ref == 0:
+                    if tab_alpha[row] != 0:
+                        ck.violation("tabulated-alpha=lambda/c", {"row": "first" if row == 0 else "last", "alpha": float(tab_alpha[row]), "lambda": 0.0}, desc)
+                elif not ck.margin("end rows: tabulated alpha = lambda / c_reference", abs(tab_alpha[row] * c_ref / lam_ref - 1), 2e-3):
                     ck.violation("tabulated-alpha=lambda/c", {"row": "first" if row == 0 else "last", "alpha": float(tab_alpha[row]), "lambda/c_reference": lam_ref / c_ref}, desc)
                 ck.count("table_end_rows_checked")
     ck.count("table_cases")
